@@ -860,6 +860,13 @@ class Stage:
         else:
             grid = 'point'
         
+        if isinstance(include_last, str):
+            if include_last!="auto":
+                raise Exception("Invalid argument: include_last must be True, False or 'auto', got " + repr(include_last))
+            # Controls are not defined at tf: leave the final point out when the constraint depends on one
+            # (also through the operand of next/prev/offset)
+            exprs = [constr] + [self._offsets[e][0] for e in ca.symvar(MX(constr)) if e in self._offsets]
+            include_last = not any(depends_on(e, self.u) for e in exprs)
         scale = self._parse_scale(constr, scale)
         args = {"grid": grid, "include_last": include_last, "include_first": include_first, "scale": scale, "refine": refine, "group_refine": group_refine, "group_dim": group_dim, "group_control": group_control}
         self._constraints[grid].append((constr, get_meta(meta), args))
